@@ -57,7 +57,7 @@ def universes(quick, d5fixed=True):
           Universe("jobkey", jobkey, ["auto"], speckey="job"),
           Universe("jobhet", jobhet, ["auto"], orders=["asc", "desc"]),
           # the COMMAND LINE front: every action of this universe is `signac view ...` run as its own process
-          Universe("cli", hom[:3] if quick else hom[:4], ["cliauto", "tree"] if quick else ["cliauto", "tree", "flat", "const"])]
+          Universe("cli", hom[:3] if quick else hom[:4], ["cliauto", "tree"] if quick else ["cliauto", "tree", "const"])]
     us[-1].cli = True
     us[-2].max_inside = 2 if quick else 8      # (only matters while DEVIATION D5 is open: at most one / four escapes are followed up)
     for u in us:      # deviations reachable in the universe, in the order in which they are switched off for TLC's counterexamples
